@@ -26,7 +26,83 @@ def _eval_expr(I, text, env, jval):
     return I.eval(node, e)
 
 
+def exec_inv_for(I, st, env, it, spec):
+    """R-INV: a loop that carries one heap object (`retTier`) whose class invariant every iteration re-establishes.
+
+    Sidecar: {"invariant": {"var": name, "builder": f(S, tag) -> fresh object assumed to satisfy the invariant,
+                             "clauses": [(label, text over the function's variables)]}}
+    Obligations (each *unsupported* - never a violation - if it cannot be proved):
+      initiation   - the clauses hold for the object before the loop, and nothing else in the frame reaches it;
+      preservation - for a generic iteration started from an arbitrary object satisfying the invariant (the builder's
+                     fresh object), every path of the body ends normally with the clauses holding for the object
+                     then bound to `var`;
+    after which the loop is summarised by: `var` is bound to a fresh object satisfying the invariant, every other
+    variable the body assigns is unknown.  Everything else about the loop's result is forgotten: the rule carries the
+    class invariant through the loop and nothing more."""
+    from .contracts import Sym, reachable
+    inv = spec["invariant"]
+    var, builder0, clauses = inv["var"], inv["builder"], inv["clauses"]
+    ctx = I.ctx
+    src = loops.classify_iterable(I, it)
+    body = st.body
+    spec_module = inv.get("spec_module", "spec.tiers")
+    S = Sym(I, spec_module)
+
+    def holds(cenv_vars, what):
+        for label, text in clauses:
+            try:
+                g = I.pure(S.expr_fn(text, [], dict(cenv_vars)))
+            except Unsupported as u:
+                raise Unsupported("loop invariant (%s) cannot be evaluated %s: %s" % (label, what, u))
+            if not I.ctx.entails(g, patient=True):
+                notes = ";".join(I.ctx.notes[-6:])
+                raise Unsupported("loop invariant (%s) not provable %s [%s]" % (label, what, notes))
+
+    cur = env.lookup(var)
+    if callable(clauses):
+        clauses = clauses(cur)  # e.g. by the class of the carried object
+
+    def builder(S_, tag):
+        return builder0(S_, tag, cur)
+    frame_vars = dict(env.vars)
+    holds(frame_vars, "before the loop")
+    others = [v for n, v in frame_vars.items() if n != var]
+    mine = set(id(o) for o in reachable(cur))
+    for o in others:
+        if any(id(x) in mine for x in reachable(o)):
+            raise Unsupported("loop invariant: the carried object is shared with another variable")
+    assigned = loops.assigned_names(body) | loops.assigned_names([ast.Assign(targets=[st.target], value=ast.Constant(0))])
+    counter = [0]
+
+    def run_body(cenv, value, recs):
+        counter[0] += 1
+        fresh = builder(Sym(I, spec_module), "inv%d" % counter[0])
+        for o in reachable(fresh):
+            o.owner = id(I.ctx)  # the iteration owns (may mutate) the object it starts from
+        cenv.vars[var] = fresh
+        I.assign(st.target, value, cenv)
+        try:
+            I.exec_block(body, cenv)
+        except ContinueEx:
+            pass
+        holds(dict(cenv.vars), "after an iteration")
+
+    poisoned = [n for n in assigned if n != var]
+    j, sterm, results, binds = loops.explore_body(I, src, run_body, [], poisoned, env, want_updates=(), check_escape=False)
+    for bp in results:
+        if bp.kind != "normal":
+            raise Unsupported("loop invariant rule: an iteration may %s" % bp.kind)
+    for n in assigned:
+        env.vars[n] = Poison("assigned in a loop summarised by its invariant")
+    out = builder(Sym(I, spec_module), "inv-exit")
+    for o in reachable(out):
+        o.owner = id(I.ctx)
+    env.vars[var] = out
+
+
 def exec_fold_for(I, st, env, it, spec):
+    if "invariant" in spec:
+        return exec_inv_for(I, st, env, it, spec)
     carried = spec.get("carried", {})
     if not carried:
         raise Unsupported("fold rule without carried expressions")
@@ -35,6 +111,35 @@ def exec_fold_for(I, st, env, it, spec):
     src = loops.classify_iterable(I, it)
     ctx = I.ctx
     body = st.body
+    # the annotation names a local; a renamed local must not break the proof: a carried name that is not assigned in
+    # the body any more is re-bound to the only other loop-carried candidate (assigned in the body to something that
+    # is not a constant, defined before the loop, neither loop target nor append-only accumulator)
+    assigned0 = loops.assigned_names(body)
+    targets0 = loops.assigned_names([ast.Assign(targets=[st.target], value=ast.Constant(0))])
+    missing = [n for n in carried if n not in assigned0]
+    if missing:
+        def only_constants(name):
+            for n in ast.walk(ast.Module(body=body, type_ignores=[])):
+                if isinstance(n, ast.Assign) and any(isinstance(t, ast.Name) and t.id == name for t in n.targets):
+                    if not isinstance(n.value, ast.Constant):
+                        return False
+                elif isinstance(n, (ast.AugAssign, ast.AnnAssign)) and isinstance(n.target, ast.Name) and n.target.id == name:
+                    return False
+            return True
+
+        def defined_before(name):
+            try:
+                env.lookup(name)
+                return True
+            except KeyError:
+                return False
+        acc0 = set(loops.accumulator_names(body, lambda n: env.lookup(n) if defined_before(n) else None))
+        cands = [n for n in sorted(assigned0 - targets0) if n not in carried and n not in acc0
+                 and defined_before(n) and not only_constants(n)]
+        if len(missing) == 1 and len(cands) == 1:
+            carried = {(cands[0] if k == missing[0] else k): v for k, v in carried.items()}
+        else:
+            raise Unsupported("fold annotation does not bind: no variable %s in the loop body" % missing)
     # initiation
     for name, text in carried.items():
         cur = env.lookup(name)
